@@ -23,6 +23,7 @@ CLAIMED = {
     "C03": dict(
         text=(
             'Writer/reader agreement decided statically: codec-table entries resolve to code of the named codec library and save/load use matching table roles; every metadata key read on a non-failing loader path is written by the saver side; per-chunk metadata has provenance in the chunk being written; rechunker typestate (flush and save before close, chunk numbers advance once per save); empty-chunk handling agrees on both sides. Necessary conditions of a faithful round trip; bit-identity is not decided.'
+            " Added in the strengthening rounds: conservation of the rechunker (the received chunk reaches the returned list or the cache on every path, remainder merged in front, every split's left part emitted), split candidates from gaps against the running maximum of end times, streaming decompressors never truncated."
         ),
         note="Trusted: CPython ast; each codec library's compress/decompress are inverse; metadata variable naming table (metadata, md, chunk_info, c).",
         technique='sibling agreement (writer vs. reader key sets, codec family resolution), provenance of stored values, typestate path rules',
@@ -31,6 +32,7 @@ CLAIMED = {
     "C07": dict(
         text=(
             'Guard dominance for merge / concatenate, exhaustive ordering-domain enumeration of the sub/superrun split against its specification, protected use of identity-less reductions (incl. the cursor idiom of the split-point search), and constructor discipline of the rechunk paths (only strict split / concatenate). That rows are preserved and split points optimal is not decided.'
+            ' Added: running-maximum discipline of split_array / diff, the split protocol of Chunk.split (no use of the requested time before the actual one is known, adjacent halves), and presence-not-row-count tests for cached chunks before concatenation.'
         ),
         note='Trusted: CPython ast; numpy reductions raise on empty input.',
         technique='dominator rules, weak-ordering enumeration, reduction-site lint with cursor idiom, who-may-construct rule',
@@ -47,6 +49,7 @@ CLAIMED = {
     "C09": dict(
         text=(
             "Typestate of the overlap-window plugin's cross-chunk state: final flush on every normal exit, state assigned on every path in both output branches, already-sent results cut before emission, cached input in front of new input, input cache refreshed, plugin sequential. Window arithmetic is not decided."
+            ' Window limits are now decided as linear forms with sign conditions (boundary - k * window - c, k >= 1, c >= 0), the cut at sent_until is strict and every cache entry is refreshed on every pass.'
         ),
         note='Trusted: CPython ast; Chunk.split semantics.',
         technique='cut-set path rules on the CFG (must-assign / must-call), dominance ordering of split statements',
@@ -63,6 +66,7 @@ CLAIMED = {
     "C13": dict(
         text=(
             'Static backpressure structure: capacity gate dominates the only heap insert; in lazy mode every source advance is gated by the fetch predicate (per output in the divider); exhaustive decision table of _can_fetch; lazy only without worker pools, savers never drive, flow-freely = produced - required; demand published before waiting and withdrawn before extraction. The numeric bound per plugin graph is not decided.'
+            ' Added: data-type names are never iterated as collections in the wiring code.'
         ),
         note='Trusted: CPython ast; threading.Condition semantics.',
         technique='cut-set path rules for gates, decision-table extraction, wiring-argument provenance',
@@ -79,6 +83,7 @@ CLAIMED = {
     "C17": dict(
         text=(
             'Must-pass-through of sortedness checks (ValueError on failure) for both inputs of every public interval wrapper, whole-package stable-sort sweep, and ordering-domain enumeration of the containment and touching-window comparison predicates against their definitions. Kernel loop logic and numeric agreement with quadratic definitions are not decided.'
+            ' Added: the break predicate of _find_break_i as a linear form (start - running max end - safe_break >= 0).'
         ),
         note='Trusted: CPython ast; numpy mergesort is stable.',
         technique='inter-procedural must-pass-through rule, package-wide call-site sweep with positive fixture, weak-ordering enumeration',
@@ -87,6 +92,7 @@ CLAIMED = {
     "C18": dict(
         text=(
             'Effect (field write-set) analysis of the waveform routines, identical-slice copy rule for the reduction kernel, metadata-copy field set, and assignment coverage / threshold comparison of the hit finder. Which samples are kept and numeric field values are not decided.'
+            ' Added: open-ended sample slices into neighbouring fragments only on the right side of zero; record_links links only non-first fragments that start exactly where the previous record ended and updates its per-channel bookkeeping for every record.'
         ),
         note='Trusted: CPython ast; numpy structured-array store semantics.',
         technique='effect summaries through aliases of record arrays, write-set table, assignment coverage',
@@ -114,6 +120,7 @@ CLAIMED = {
             "(sibling agreement), chunk constructor guards compared with their specification on all "
             "weak orderings, continuity guard, time-field decision table and its coverage of all "
             "plugin construction paths."
+            ' Added: dtype checks compare dtype objects (not order-forgetting projections) and the memory layout, and no check compares an object with something read off that object.'
         ),
         note="Trusted: CPython ast; numpy dtype inequality; checker discovery by role (functions that raise on data_type / dtype mismatch).",
         technique="dead-guard lint with flow-sensitive inlining, cut-set path rules, ordering-domain enumeration, decision tables",
@@ -127,6 +134,7 @@ CLAIMED = {
             "collection.  The tree violates the race rule (Context has no lock): the 15 racy "
             "(attribute, writer, reader) pairs are recorded as known findings; any new pair is a "
             "violation."
+            ' Added: work-queue rules of multi_run (one sorted sequence, cursor advanced once per submission, every finished future frees a slot) and publication of a plugin into the shared cache only after it is fully built.'
         ),
         note="Trusted: GIL atomicity of single dict/list operations and of list()/dict()/.copy(); call graph restricted to self-calls on Context.",
         technique="lockset-style static race detection with effect summaries and alias tracking; dominator rules on multi_run",
@@ -139,6 +147,7 @@ CLAIMED = {
             "creation, path-sensitive Future-typed-local lint, copy-target filter clauses, inspection of "
             "an asynchronously running saver's outcome before acting on it, ordering of verify / remove "
             "/ move in the rechunker.  Equality of the copied rows is not decided."
+            ' Added: wrapper generators around loaders yield every chunk they take, a loader consumed per target is created per target, streaming decompressors are drained.'
         ),
         note="Trusted: CPython ast; concurrent.futures.Future API; the reviewed destructive-call table in sa/props/c16.py.",
         technique="who-may-call table with provenance and guard dominance, path-sensitive abstract interpretation, cut-set path rules",
@@ -166,6 +175,7 @@ CLAIMED = {
             "asynchronous write observed before the normal-path close, broken-data tests on every read "
             "path (exhaustive decision table for the overwrite policy), savers closed while the "
             "exception is active, failed saves recorded and re-raised."
+            " Added: the temporary directory starts empty on every path; the failure is recorded in got_exception on every way out of the saver thread's handler (exception edges included)."
         ),
         note="Trusted: atomicity of os.rename; formatted_exception() non-empty iff an exception is active; CPython ast.",
         technique="provenance of path arguments, dominator / cut-set path rules, decision-table extraction, future-flow rule",
@@ -180,6 +190,7 @@ CLAIMED = {
             "interpretation rejects statements that fail by construction on those paths; every "
             "catch-all handler in the pipeline modules reacts.  Liveness beyond this structure "
             "(capacity vs. plugin lag) is not decided."
+            ' Added: the saver thread records its failure before anything in its handler can raise.'
         ),
         note="Trusted: generator.throw semantics; Mailbox.cleanup joins; CPython ast; callee resolution table in sa/resolve.py.",
         technique="handler-path cut-set rules on the CFG, thread-entry resolution, path-sensitive abstract interpretation, provenance of the re-raised object",
@@ -206,6 +217,7 @@ CLAIMED = {
             "insert, removal only under a min-over-subscribers test, nothing blocking under the "
             "lock, end-marker ordering.  These are necessary conditions of exactly-once in-order "
             "delivery for every schedule; value arithmetic of message numbers is not decided."
+            ' Added: numbering / cursor discipline (send counter and reader cursor start equal and advance by one per insert / per extracted message, queue-then-advance order, cursor-1 published, every queued message yielded) and sender loops forwarding every item exactly once.'
         ),
         note=(
             "Trusted: CPython ast; threading.Condition semantics; single sending thread per mailbox; "
